@@ -1,14 +1,139 @@
-(* C03 — property theorems only (bodies in Lemmas.v / Proofs.v / Witness.v). *)
+(* C03 — property theorems only.  Bodies live in Lemmas.v / Proofs.v / Witness.v.
+
+   "Appends accumulate: the file equals the concatenation of all writes."  The model
+   (Model.v, on top of C01/Framing.v) describes the code AFTER the three repairs in fixes/C03.
+   [meta] (eval of the header text + numpy.dtype) and [enc] (the text form of a chunk, C04's
+   subject) are not modelled: they are universally quantified and constrained only by the
+   premise Spec.header_ok on the headers that a history creates, which the harness monitors on
+   every case.  The text VALUE round trip of a chunk is not part of these theorems: for a text
+   file they state the bytes (header ++ printed chunks in order) and the stored row count;
+   rows are stated for binary files. *)
 From Coq Require Import ZArith List Bool.
 From Coq.Strings Require Import Byte String.
 From EsVerif.Common Require Import Base Bytes.
 From EsVerif.C01 Require Import Framing.
-From EsVerif.C03 Require Import Model Spec Lemmas.
+From EsVerif.C03 Require Import Model Spec Lemmas Proofs Witness.
 Import ListNotations.
 Open Scope Z_scope.
 Open Scope list_scope.
+Notation length := List.length.
+
+(* The in-place update of the row count touches nothing but the count: the 28 bytes
+   "SIZE = %20ld\n" written at offset 0 of a file that starts with a header for n rows give the
+   same file with a header for n' rows (whatever follows the header). *)
+Theorem C03_update_row_count_frame : forall n n' d rest,
+  0 <= n < 10 ^ 20 -> 0 <= n' < 10 ^ 20 ->
+  overwrite (size_line n' ++ [nl]) (mk_header n d ++ rest) = mk_header n' d ++ rest.
+Proof. exact update_row_count_frame. Qed.
+
+(* One operation: if the concrete state is the image of an abstract state of the statement
+   (file = header(total) ++ chunks; cached size / dtype / delimiter of an open object = those
+   of the file), then after the operation it is the image of the abstract successor, and the
+   answer and the bytes before/after are what the statement demands (Spec.obs_ok; misuse the
+   statement does not talk about is answered by the modelled error and changes no byte). *)
+Theorem C03_step_refines : forall meta enc s a o,
+  Inv meta enc s a -> op_ok meta a o -> used a + op_rows o < 10 ^ 20 ->
+  Inv meta enc (fst (step meta enc s o)) (fst (astep a o))
+  /\ answers (snd (astep a o)) (disk s) (snd (step meta enc s o), disk (fst (step meta enc s o))).
+Proof. exact step_refines. Qed.
+
+(* Histories.  For EVERY finite sequence over {create, write again on the same object, close,
+   reopen for append, sfile.write(append=True|False), read} started on a missing path, with
+   well-formed chunks of >= 1 row and the contract on the created headers: every read returns
+   the row count, dtype and user header fixed at the last create/overwrite and (binary) the
+   rows of all chunks accepted since, in order; accepted writes leave a file; a rejected
+   append is an error and leaves the bytes unchanged; and the final state is again the image
+   of the abstract state (so the history can be continued). *)
+Theorem C03_history : forall meta enc ops,
+  hist_wf meta AMissing ops -> hist_rows ops < 10 ^ 20 ->
+  hist_ok AMissing None ops (run meta enc init ops)
+  /\ Inv meta enc (final meta enc init ops) (fold_left (fun a o => fst (astep a o)) ops AMissing).
+Proof. exact history_from_init. Qed.
+
+(* The same from any state that satisfies the invariant. *)
+Theorem C03_history_from : forall meta enc ops s a,
+  Inv meta enc s a -> hist_wf meta a ops -> used a + hist_rows ops < 10 ^ 20 ->
+  hist_ok a (disk s) ops (run meta enc s ops)
+  /\ Inv meta enc (final meta enc s ops) (fold_left (fun a o => fst (astep a o)) ops a).
+Proof. exact history_refines. Qed.
+
+(* What the invariant means for the bytes and for a read: the file is the header for the
+   total row count followed by the chunks in order; reading returns total, dtype, user header
+   and, for a binary file, exactly the rows of all chunks in order. *)
+Theorem C03_file_is_concatenation : forall meta enc s af o,
+  Inv meta enc s (AFile af o) -> total af < 10 ^ 20 ->
+  disk s = Some (mk_header (total af) (a_d af) ++ concat (map (payload enc (a_dl af)) (a_chunks af)))
+  /\ read_back meta s
+     = ORead (total af) (a_dt af)
+             (match a_dl af with None => Some (concat (map c_rows (a_chunks af))) | Some _ => None end) (a_u af).
+Proof. exact file_is_concatenation. Qed.
+
+(* An append whose fields are incompatible with the file is rejected with an error and leaves
+   the file's bytes unchanged (function form and open-object form; binary and text). *)
+Theorem C03_rejected_append_frame : forall meta enc s af o dl c d u,
+  Inv meta enc s (AFile af o) -> total af < 10 ^ 20 ->
+  compat (a_dl af) (a_dt af) (c_dt c) = false ->
+  (snd (step meta enc s (FnWrite true dl c d u)) = OErr EValue
+   /\ disk (fst (step meta enc s (FnWrite true dl c d u))) = disk s)
+  /\ (forall m, o = Some m -> step meta enc s (WriteAgain c d u) = (s, OErr EValue)).
+Proof. exact rejected_append_frame. Qed.
+
+(* An append to a file that does not exist yet creates it. *)
+Theorem C03_append_missing_creates : forall meta enc dl c d u,
+  chunk_ok c -> header_ok meta dl c d u -> nrows c < 10 ^ 20 ->
+  let r := step meta enc init (FnWrite true dl c d u) in
+  snd r = OOk
+  /\ disk (fst r) = Some (mk_header (nrows c) d ++ payload enc dl c)
+  /\ read_back meta (fst r)
+     = ORead (nrows c) (file_dtype dl (c_dt c))
+             (match dl with None => Some (c_rows c) | Some _ => None end) u.
+Proof. exact append_missing_creates. Qed.
+
+(* A non-append write replaces the previous contents, from any state whatsoever. *)
+Theorem C03_overwrite_replaces : forall meta enc s dl c d u,
+  chunk_ok c -> header_ok meta dl c d u -> nrows c < 10 ^ 20 ->
+  let r := step meta enc s (FnWrite false dl c d u) in
+  snd r = OOk
+  /\ disk (fst r) = Some (mk_header (nrows c) d ++ payload enc dl c)
+  /\ Inv meta enc (fst r) (AFile (new_file dl c d u) None).
+Proof. exact overwrite_replaces. Qed.
+
+(* The code AS FOUND (before fixes/C03) did not have the last two properties: *)
+(* sfile.write(f, c, append=True) on a missing path raised and created nothing; *)
+Theorem C03_asfound_append_missing_refuted :
+  exists meta enc dl c d u,
+    chunk_ok c /\ header_ok meta dl c d u /\ nrows c < 10 ^ 20
+    /\ snd (fn_append_v0 meta enc dl c d init) <> OOk
+    /\ disk (fst (fn_append_v0 meta enc dl c d init)) = None.
+Proof. exact asfound_append_missing_refuted. Qed.
+
+(* an incompatible chunk was accepted into a binary file: the bytes change and a read returns
+   something else than before. *)
+Theorem C03_asfound_incompatible_binary_refuted :
+  exists meta enc s af m c d,
+    Inv meta enc s (AFile af (Some m)) /\ total af < 10 ^ 20 /\ chunk_ok c
+    /\ compat (a_dl af) (a_dt af) (c_dt c) = false
+    /\ snd (sf_write_v0 enc c d s) = OOk
+    /\ disk (fst (sf_write_v0 enc c d s)) <> disk s
+    /\ read_back meta (fst (sf_write_v0 enc c d s)) <> read_back meta s.
+Proof. exact asfound_incompatible_binary_refuted. Qed.
 
 (* Checker soundness: what the correspondence run evaluates on the real code's observations. *)
 Theorem C03_checker_sound : forall ops a before os,
   hist_check a before ops os = true -> hist_ok a before ops os.
 Proof. exact hist_check_sound. Qed.
+
+(* Non-vacuity: a closed 7-operation history (create, write again, read while open, close,
+   append by reopening, an incompatible append, read) meets every premise of C03_history and
+   the model computes the expected files and answers. *)
+Example C03_nonvacuous :
+  hist_wf ex_meta AMissing ex_ops /\ hist_rows ex_ops < 10 ^ 20
+  /\ run ex_meta ex_enc init ex_ops
+     = let f2 := mk_header 2 ex_d ++ [x01; x00; x02; x00] in
+       let f3 := mk_header 3 ex_d ++ [x01; x00; x02; x00; x03; x00] in
+       let f6 := mk_header 6 ex_d ++ [x01; x00; x02; x00; x03; x00; xff; x7f; x00; x80; x05; x00] in
+       [(OOk, Some f2); (OOk, Some f3);
+        (ORead 3 ex_dt (Some [[x01; x00]; [x02; x00]; [x03; x00]]) ex_u, Some f3);
+        (OOk, Some f3); (OOk, Some f6); (OErr EValue, Some f6);
+        (ORead 6 ex_dt (Some [[x01; x00]; [x02; x00]; [x03; x00]; [xff; x7f]; [x00; x80]; [x05; x00]]) ex_u, Some f6)].
+Proof. exact nonvacuous. Qed.
